@@ -38,7 +38,24 @@ CLAIM = dict(
           "read_struct_file of another struct file and caller edit of another result, and judged by the same Lean "
           "predicate (returnedOK with the options of the call that returned it); sark.struct and the boot "
           "constants are regenerated from the source on every run by an independent parser and the generated sv table "
-          "is proved well formed."),
+          "is proved well formed. (7) THE STRUCT-FILE PARSER IS INSIDE THE MODEL: parseStructFile (Model/C20Parse.lean) "
+          "models read_struct_file byte for byte (splitlines, comment stripping, tokens, the two regular expressions, "
+          "num incl. hex / sign / PEP-515 underscores, perl pack letters with counts, array suffix, in-place "
+          "replacement of repeated struct / field names, every exception with the order in which the code raises "
+          "them); sark_parsed: the BYTES of rig/boot/sark.struct (regenerated each run) parse in the kernel to the "
+          "table the boot theorems and the oracle use, boot_meets_spec_parsed: the boot theorem for the parsed "
+          "table; parse_print: for EVERY well-formed table parsing its canonical printing gives the table "
+          "(unbounded; well-formedness is decided by tableWFB and holds for the bundled table, sark_table_wf); "
+          "field_line_accepted / field_line_raises / line_syntax_error: an accepted field line stores exactly the "
+          "name, array length, pack characters, offset and default the line states, and which line raises which "
+          "error; perl_packs_documented: rig's perl->Python pack table is the documented meaning of the perl "
+          "letters. Tied on every run by STREAM struct files: generated struct-file texts (valid: every pack "
+          "letter, counts, arrays, hex / decimal / signed / underscored numbers, odd white space, comments, CR / LF "
+          "/ CRLF, repeated headers, fields and structs; malformed: missing name / size / base, wrong token counts, "
+          "unknown keys and pack letters, malformed numbers, '#' inside tokens, field before name, empty files, "
+          "bytes outside ASCII) go to read_struct_file and to parseStructFile and tables and errors (kind, line, "
+          "token) are compared exactly; every text with an in-domain sv is then BOOTED and judged by specOK with "
+          "the table the model parser gave; read_struct_file(printStructs T) = T is checked for every parsed table."),
     design="3/C20",
     note=("Domain: 4 | len image, 512 <= len image < 32 KiB, non-overlapping integer fields inside the struct, options "
           "naming fields with values that fit. Outside the domain only the correspondence is checked. The sleeps are "
@@ -55,7 +72,13 @@ CLAIM = dict(
           "only_if_needed=True / check_booted=True) (they decide WHETHER to boot and wait afterwards by talking SCP "
           "to a machine - C18/C09 territory; the boot datagrams are the same call of boot.boot), and "
           "MachineController(scp_port, n_tries, timeout, initial_context) (not used by boot); hostname is always a "
-          "non-empty string (a real UDP socket is opened for controllers)."),
+          "non-empty string (a real UDP socket is opened for controllers). Struct-file parser: Model/C20.lean's "
+          "packValue knows the plain codes B b H I (anything else = struct.error, true for every 's' code); "
+          "counted integer codes such as '1I' (perl 'V1') are covered by packValueFull (proved equal to packValue "
+          "on the plain codes, tied to struct.pack by STREAM pack characters) and texts using them are compared "
+          "parser-against-parser but not booted. A digit string longer than CPython's 4300-digit int limit is not "
+          "generated. A parser difference on a text without an in-domain sv (malformed files, error kinds) is a "
+          "correspondence mismatch: the property text does not say which error a malformed file raises."),
     technique="Lean 4 theorems over a hand-written model + differential correspondence over histories + Lean spec as oracle")
 
 THEOREMS = ["consts_documented", "sv_table_ok", "boot_sequence", "unswap_concat", "config_area",
@@ -105,7 +128,14 @@ RULE = ("STREAM histories: 1-6 boot() calls from freshly loaded struct_file/boot
         "dictionary comparison with the Lean model everywhere. A history is non-trivial when it is in the domain "
         "and either some call carries options that a later call does not ask for or a result obtained with options "
         "is read again after a later boot / step; a packet case when it carries data; distinct = distinct canonical "
-        "JSON; the replay carries the whole history incl. steps, faults and calling conventions")
+        "JSON; the replay carries the whole history incl. steps, faults and calling conventions. STREAM struct files: "
+        "220 / 3000 valid + 220 / 3000 malformed struct-file texts (+ the bundled sark.struct) through "
+        "read_struct_file and the Lean parseStructFile, compared exactly (parsed tables in file order, error kind "
+        "with line number / token / struct name); 70 / 1200 of the texts with an in-domain sv are booted "
+        "(sark_struct=<text>) and judged by specOK with the model-parsed table (replay = the one-call history "
+        "carrying the text); every parsed table (some with sizes / offsets / defaults replaced by negative and "
+        "large integers) is printed by the Lean printStructs and read back by read_struct_file. STREAM pack "
+        "characters: struct.pack('<' + count + code, v) against packValueFull (mismatch only)")
 
 RESERVED = {"hostname", "boot_port", "scamp_binary", "sark_struct", "boot_delay", "post_boot_delay",
             "sv_overrides", "width", "height", "only_if_needed", "check_booted"}
@@ -303,6 +333,8 @@ def gen_table(rng):
 
 
 def struct_text(table, rng):
+    if "text" in table:                         # a table the model parser made from this very text (STREAM struct files)
+        return bytes.fromhex(table["text"])
     out = ["# synthetic struct file"] + ["# padding line %d" % i for i in range(table.get("comments", 0))]
     out += ["name = sv", "size = %d" % table["size"], "base = 0x%x" % table.get("base", 0xf5007f00), ""]
     for n, p, off, pf, d, ln in table["fields"]:
@@ -1020,7 +1052,12 @@ def run_impl(case):
                     new_controller(st["host"], None, st.get("mc"))
                 elif st["do"] == "read_struct":
                     text = (struct_text(st["table"], random.Random(n_step)) if st["table"] is not None else default_text())
-                    keep_aux("result of read_struct_file in " + label, sf_mod.read_struct_file(text), st["table"])
+                    try:
+                        parsed_now = sf_mod.read_struct_file(text)
+                    except Exception as e:      # noqa
+                        kept["aux"].append("read_struct_file raised %s in %s" % (type(e).__name__, label))
+                    else:
+                        keep_aux("result of read_struct_file in " + label, parsed_now, st["table"])
                 elif st["do"] == "edit_dict":
                     d = store[st["index"]]
                     if st["op"] == "set":
@@ -1054,6 +1091,9 @@ def expected_structs(table):
         sv = [t for t in _cache["structs"] if t[0] == "sv"][0]
         return {"sv": [list(f) for f in sv[3]], "svmeta": [sv[1], sv[2]],
                 "others": sorted([t[0], t[1], t[2], [list(f) for f in t[3]]] for t in _cache["structs"] if t[0] != "sv")}
+    if "others" in table:
+        return {"sv": [list(f) for f in table["fields"]], "svmeta": [table["size"], table["base"]],
+                "others": [[s[0], s[1], s[2], [list(f) for f in s[3]]] for s in table["others"]]}
     return {"sv": [list(f) for f in table["fields"]], "svmeta": [table["size"], table.get("base", 0xf5007f00)],
             "others": [["other", 8, 0, [["x", "I", 0, "%d", table.get("other", 7), 1]]]]}
 
@@ -1483,8 +1523,11 @@ def prepare(ctx):
     # translator cross-check: Gen table (independent parse) == rig's own read_struct_file of the same file
     from rig.machine_control import struct_file, boot as boot_mod, consts
     from harness import common
-    st = struct_file.read_struct_file(open(os.path.join(common.REPO, "rig/boot/sark.struct"), "rb").read())
-    theirs = [[n.decode(), s.size, s.base, canon_struct(s)] for n, s in st.items()]
+    try:
+        st = struct_file.read_struct_file(open(os.path.join(common.REPO, "rig/boot/sark.struct"), "rb").read())
+        theirs = [[n.decode(), s.size, s.base, canon_struct(s)] for n, s in st.items()]
+    except Exception as e:      # noqa  (the streams go on: a boot with the bundled file then shows what goes wrong)
+        theirs = "read_struct_file(sark.struct) raised %r" % (e,)
     if theirs != c[1]:
         ctx.mismatch("c20.translator", "independent parse of sark.struct differs from read_struct_file", {"struct": "sark.struct"})
     live = [[int(k[4]), [[a, b] for a, b in getattr(boot_mod, k).items()]] for k in sorted(dir(boot_mod))
@@ -1705,6 +1748,383 @@ def packet_eval(ctx, cases):
         ctx.case({"packet": case}, "ok" in o and len(case["data"]) > 0)
 
 
+# ------------------------------------------------------------------ STREAM struct files (read_struct_file vs parseStructFile)
+# Generated struct-file TEXTS go to rig's read_struct_file and to the Lean model parser (suite c20parse); parsed
+# tables and raised errors (kind + detail) are compared exactly (mismatch).  Every text whose Lean parse has an
+# in-domain `sv` struct is then BOOTED: boot(sark_struct=<the text>) is judged by the Lean specOK with the table
+# parseStructFile gave - the boot theorems applied to the parsed table - so a parser that reads the file
+# differently (offsets, widths, defaults, array lengths, comments, line ends) ends in a concrete VIOLATION.
+PERL_OF = {"B": "C", "b": "c", "H": "v", "I": "V"}
+SEPS = [" ", " ", "  ", "   ", "\t", " \t", "\x0b", "\x0c", "          "]
+EOLS = ["\n", "\n", "\n", "\r\n", "\r"]
+
+
+def fmt_num(rng, v, fancy=True):
+    """one of the spellings `num` accepts for the integer v"""
+    if v < 0:
+        return rng.choice(["%d" % v, "-0%d" % -v]) if fancy else "%d" % v
+    forms = ["%d", "%d", "0x%x", "0x%02x", "0X%X", "0x%08x", "0x%X"]
+    if fancy:
+        forms += ["0%d", "+%d", "00%d", "0X%x"]
+    s = rng.choice(forms) % v
+    if fancy and rng.random() < 0.12:
+        digits = s[2:] if s[:2] in ("0x", "0X") else s.lstrip("+")
+        if len(digits) >= 2:
+            k = rng.randrange(1, len(digits))
+            s = s[:len(s) - len(digits)] + digits[:k] + "_" + digits[k:]
+    return s
+
+
+def perl_token(rng, pypack, counted):
+    if pypack in PERL_OF:
+        t = PERL_OF[pypack]
+        if counted and rng.random() < 0.3:
+            t += rng.choice(["1", "01", "2", "0", "4", "1zz"])
+        return t
+    return "A" + pypack[:-1]
+
+
+def field_line(rng, f, fancy, counted=False):
+    n, p, off, pf, d, ln = f
+    nm = n if ln == 1 else "%s[%s]" % (n, rng.choice(["%d", "%d", "0%d"]) % ln if fancy else "%d" % ln)
+    return [nm, perl_token(rng, p, counted), fmt_num(rng, off, fancy), pf, fmt_num(rng, d, fancy)]
+
+
+def render(rng, lines, fancy):
+    """lines = list of token lists (or raw strings) -> bytes, with separators, comments, blank lines and line ends"""
+    eol = rng.choice(EOLS) if fancy else "\n"
+    mixed = fancy and rng.random() < 0.15
+    out = []
+    for toks in lines:
+        if isinstance(toks, str):
+            s = toks
+        else:
+            sep = rng.choice(SEPS) if fancy else "  "
+            s = (rng.choice(["", "", " ", "\t"]) if fancy else "") + sep.join(toks)
+            r = rng.random()
+            if r < 0.35:
+                s += rng.choice(["  # comment", "#c", " #", "\t# a # b", "   ", "# x = y", " # name = q"])
+        out.append(s + (rng.choice(EOLS) if mixed else eol))
+        if fancy and rng.random() < 0.2:
+            out.append(rng.choice(["", "   ", "# only a comment", "\t#", "#" + "-" * 30]) + (rng.choice(EOLS) if mixed else eol))
+    text = "".join(out)
+    if fancy and rng.random() < 0.3:
+        text = text.rstrip("\r\n")              # no line end after the last line
+    return text.encode("latin-1")
+
+
+def struct_lines(rng, name, size, base, fields, fancy, counted=False):
+    eq = rng.choice(["=", "=", "=", ":", "is", "=="]) if fancy else "="
+    hdr = [["size", eq, fmt_num(rng, size, fancy)], ["base", eq, fmt_num(rng, base, fancy)]]
+    if fancy and rng.random() < 0.3:
+        hdr.reverse()
+    if fancy and rng.random() < 0.15:            # a header given twice: the later one counts
+        hdr.insert(0, [hdr[-1][0], eq, fmt_num(rng, rng.choice([0, 4, 512]), fancy)])
+    body = [field_line(rng, f, fancy, counted) for f in fields]
+    if fancy and rng.random() < 0.15 and body:   # header lines may come after fields
+        k = rng.randrange(len(body) + 1)
+        return [["name", eq, name]] + body[:k] + hdr + body[k:]
+    return [["name", eq, name]] + hdr + body
+
+
+def gen_small_struct(rng, name, allpacks):
+    fields, off = [], 0
+    for i in range(rng.randrange(0, 5)):
+        p = rng.choice(["B", "b", "H", "I"] + (["16s", "1s", "0s", "4s"] if allpacks else []))
+        lo, hi = RANGE.get(p, (0, 9))
+        fields.append([rng.choice(["x%d", "y.%d", "z_%d", "%dq"]) % i, p, off, rng.choice(["%d", "%s", "%08x"]),
+                       rng.choice([0, lo, hi, rng.randint(lo, hi)]), rng.choice([1, 1, 1, 2, 16])])
+        off += rng.choice([1, 2, 4, 16])
+    return [name, rng.choice([8, 64, 128]), rng.choice([0, 0x10, 0xe5007f00]), fields]
+
+
+def gen_valid_text(rng, bootable):
+    """a struct file read_struct_file accepts; `bootable`: ASCII, uncounted integer packs, an in-domain sv (mostly)"""
+    fancy = rng.random() < 0.8
+    t = gen_table_wf(rng) if rng.random() < 0.85 else gen_table(rng)
+    fields = [list(f) for f in t["fields"]]
+    if rng.random() < 0.3 and fields:            # array fields (the count is not packed, it is reported)
+        for f in rng.sample(fields, min(len(fields), rng.randrange(1, 4))):
+            f[5] = rng.choice([2, 3, 16, 20, 0, 65537])
+    if rng.random() < 0.25 and fields:           # names the array expression does not match: kept whole, length 1
+        f = rng.choice(fields)
+        if f[0] not in ("unix_time", "boot_sig", "root_chip") and f[5] == 1:
+            f[0] = rng.choice(["%s.sub", "%s.a[3]", "%s[x]", "%s[", "%s[]", "a-%s"]) % f[0]
+    structs = []
+    for i in range(rng.choice([0, 0, 1, 2])):
+        structs.append(gen_small_struct(rng, "pre%d" % i, True))
+    sv = ["sv", t["size"], t.get("base", 0xf5007f00), fields]
+    if rng.random() < 0.15:                      # sv defined twice: the second definition replaces the first in place
+        structs.append(["sv", 64, 0, [["old", "I", 0, "%d", 1, 1]]])
+        structs.append(gen_small_struct(rng, "mid", True))
+    structs.append(sv)
+    for i in range(rng.choice([0, 1, 1, 2])):
+        structs.append(gen_small_struct(rng, "post%d" % i, True))
+    lines = []
+    for nm, size, base, fs in structs:
+        fs = [list(f) for f in fs]
+        if nm == "sv" and fs and rng.random() < 0.2:       # a field given twice: the later line replaces it in place
+            k = rng.randrange(len(fs))
+            old = list(fs[k])
+            old[2], old[4] = rng.choice([0, 1, old[2]]), rng.choice([0, 1])
+            fs.insert(rng.randrange(k + 1), old)
+        lines += struct_lines(rng, nm, size, base, fs, fancy, counted=not bootable)
+    if not bootable and rng.random() < 0.3:      # bytes outside ASCII in names / printf strings, odd control bytes
+        extra = rng.choice(["caf\xe9", "\xa0x", "a\x1cb", "a\x85", "n\x00l", "\xff"])
+        lines.append([extra, "C", "0", "%" + extra, "0"])
+    return render(rng, lines, fancy)
+
+
+BAD_NUMS = ["0x", "12a", "1__0", "_1", "1_", "0x1g", "--1", "+-1", "0b101", "1e3", "0x_1", "0x1__2", "-0x10",
+            "+0x10", "1.0", "0o17", "x10", "\xb2", "1\x00", "0X", "-", "+"]
+BAD_PACKS = ["x", "Q", "VV", "16A", "4", "a", "s", "I", "_1", "v_", "\xe9", "c1c", "A"]
+
+
+def gen_malformed_text(rng):
+    """a valid text with one thing wrong (or odd): which error, and where, must agree with the model"""
+    base = gen_valid_text(rng, rng.random() < 0.5).decode("latin-1")
+    eol = "\r\n" if "\r\n" in base else ("\r" if "\r" in base and "\n" not in base else "\n")
+    lines = base.split(eol)
+    kind = rng.choice(["drop_size", "drop_base", "drop_name", "tokens", "badkey", "badnum_field", "badnum_header",
+                       "badpack", "field_first", "empty", "hash_in_token", "hash_line", "redefine", "array_odd",
+                       "pack_junk", "two_errors", "only_header"])
+    def idx(pred):
+        c = [i for i, l in enumerate(lines) if pred(l.split("#")[0].split())]
+        return rng.choice(c) if c else None
+    is_field = lambda t: len(t) == 5
+    if kind in ("drop_size", "drop_base", "drop_name"):
+        key = kind[5:]
+        i = idx(lambda t: len(t) == 3 and t[0] == key)
+        if i is not None:
+            if rng.random() < 0.5:
+                lines = [l for l in lines if l.split("#")[0].split()[:1] != [key]] if key != "name" else lines[:i] + lines[i + 1:]
+            else:
+                del lines[i]
+    elif kind == "tokens":
+        n = rng.choice([1, 2, 4, 6, 7])
+        lines.insert(rng.randrange(len(lines) + 1), " ".join(rng.choice(["a", "=", "0", "V", "name", "%d"]) for _ in range(n)))
+    elif kind == "badkey":
+        lines.insert(rng.randrange(len(lines) + 1), rng.choice(["Name = x", "sizes = 4", "x V 0", "base= 4 5", "NAME = sv", "= = ="]))
+    elif kind == "badnum_field":
+        i = idx(is_field)
+        if i is not None:
+            t = lines[i].split("#")[0].split()
+            t[rng.choice([2, 4])] = rng.choice(BAD_NUMS)
+            lines[i] = " ".join(t)
+    elif kind == "badnum_header":
+        i = idx(lambda t: len(t) == 3 and t[0] in ("size", "base"))
+        if i is not None:
+            t = lines[i].split("#")[0].split()
+            t[2] = rng.choice(BAD_NUMS)
+            lines[i] = " ".join(t)
+    elif kind in ("badpack", "pack_junk"):
+        i = idx(is_field)
+        if i is not None:
+            t = lines[i].split("#")[0].split()
+            t[1] = rng.choice(BAD_PACKS) if kind == "badpack" else rng.choice(["V4zz", "A16s", "C1[", "v01x", "c0", "V12345678901234567890"])
+            lines[i] = " ".join(t)
+    elif kind == "field_first":
+        lines.insert(0, rng.choice(["f V 0 %d 0", "size = 4", "base = 0x10", "f Q 0 %d 0", "f V zz %d 0", "size = zz"]))
+    elif kind == "empty":
+        lines = rng.choice([[], [""], ["# nothing"], ["", "   ", "\t"], ["#"]])
+    elif kind == "hash_in_token":
+        i = idx(lambda t: len(t) >= 3)
+        if i is not None:
+            l = lines[i]
+            k = rng.randrange(len(l) + 1)
+            lines[i] = l[:k] + "#" + l[k:]
+    elif kind == "hash_line":
+        i = idx(lambda t: len(t) >= 3)
+        if i is not None:
+            lines[i] = "#" + lines[i]
+    elif kind == "redefine":
+        names = [l.split("#")[0].split()[2] for l in lines if l.split("#")[0].split()[:1] == ["name"] and len(l.split("#")[0].split()) == 3]
+        lines.append("name = " + (rng.choice(names) if names and rng.random() < 0.7 else "fresh"))
+        if rng.random() < 0.5:
+            lines += ["size = 4"] + (["base = 4"] if rng.random() < 0.5 else [])
+    elif kind == "array_odd":
+        i = idx(is_field)
+        if i is not None:
+            t = lines[i].split("#")[0].split()
+            t[0] = rng.choice(["a[3", "a[]", "a[3]x", "[3]", "a.b[3]", "a[0x3]", "a[03]", "a[3][4]", "a[-1]", "a_1[10]]",
+                               "\xe9[3]", "a[3 ]", "a[1_0]", "9[9]", "_[00]"]).replace(" ", "")
+            lines[i] = " ".join(t)
+    elif kind == "two_errors":
+        lines.insert(rng.randrange(len(lines) + 1), "f Q zz %d yy")
+        lines.insert(rng.randrange(len(lines) + 1), "a b")
+    elif kind == "only_header":
+        lines = ["name = sv"] + rng.choice([[], ["size = 4"], ["base = 4"], ["size = 4", "base = 4"], ["base = 4", "name = t"]])
+    return kind, eol.join(lines).encode("latin-1")
+
+
+def parse_impl(data):
+    """rig's read_struct_file on `data`, canonicalised like the model's reply"""
+    import ast
+    from rig.machine_control import struct_file
+    from harness import common
+    try:
+        with common.cpu_limit(5):
+            st = struct_file.read_struct_file(data)
+        out = []
+        for n, s in st.items():
+            if n != s.name:
+                return {"err": "name-attribute-differs"}
+            out.append([n.hex(), s.size, s.base,
+                        [[k.hex(), f.pack_chars.hex(), f.offset, f.printf.hex(), f.default, f.length]
+                         for k, f in s.fields.items()]])
+        return {"ok": out}
+    except common.ImplHang:
+        return {"err": "DidNotReturn"}
+    except ValueError as e:
+        a = e.args[0] if e.args else None
+        if isinstance(a, bytes):
+            return {"err": "badkey", "key": a.hex()}
+        m = re.match(r"line (\d+): Invalid syntax in struct file$", str(a))
+        if m:
+            return {"err": "syntax", "line": int(m.group(1))}
+        for k in ("size", "base"):
+            m = re.match(r"%s value missing for struct '(.*)'$" % k, str(a), re.S)
+            if m:
+                try:
+                    return {"err": k + "-missing", "name": ast.literal_eval(m.group(1)).hex()}
+                except Exception:       # noqa
+                    return {"err": k + "-missing", "name": repr(m.group(1))}
+        m = re.match(r"invalid literal for int\(\) with base \d+: (.*)$", str(a), re.S)
+        if m:
+            try:
+                return {"err": "int", "tok": ast.literal_eval(m.group(1)).hex()}
+            except Exception:           # noqa
+                return {"err": "int", "tok": repr(m.group(1))}
+        return {"err": "ValueError", "detail": str(a)[:100]}
+    except KeyError as e:
+        a = e.args[0] if e.args else "?"
+        if a is None:
+            return {"err": "none"}
+        if isinstance(a, bytes):
+            return {"err": "pack", "key": a.hex()}
+        return {"err": "KeyError", "detail": repr(a)[:100]}
+    except Exception as e:              # noqa
+        return {"err": type(e).__name__, "detail": str(e)[:100]}
+
+
+def table_of_parse(parsed, text):
+    """the c20 table (what lean_table / expected_structs read) of a model parse; None when the file has no sv
+    struct the boot model can carry (negative numbers, non-ASCII names)"""
+    def dec(h):
+        return bytes.fromhex(h).decode("latin-1")
+    def conv(s):
+        return [dec(s[0]), s[1], s[2], [[dec(f[0]), dec(f[1]), f[2], dec(f[3]), f[4], f[5]] for f in s[3]]]
+    ss = [conv(s) for s in parsed]
+    sv = [s for s in ss if s[0] == "sv"]
+    if not sv:
+        return None
+    for s in ss:
+        if s[1] < 0 or s[2] < 0 or any(f[2] < 0 for f in s[3]):
+            return None
+    if any(ord(ch) > 126 or ord(ch) < 32 for s in ss for ch in s[0] + "".join(f[0] + f[1] + f[3] for f in s[3])):
+        return None
+    sv = sv[0]
+    if any(f[1] not in RANGE and not f[1].endswith("s") for f in sv[3]):
+        return None         # counted integer codes ("1I"): packValueFull / STREAM pack characters, not Model/C20's packValue
+    return {"size": sv[1], "base": sv[2], "fields": sv[3], "text": text.hex(),
+            "others": sorted(s for s in ss if s[0] != "sv")}
+
+
+def parse_eval(ctx, items):
+    """items: [{"text": hex, "kind": ...}] -> list of (item, model reply, impl reply)"""
+    ms = ctx.lean([{"suite": "c20parse", "op": "parse", "data": it["text"]} for it in items])
+    out = []
+    for it, m in zip(items, ms):
+        o = parse_impl(bytes.fromhex(it["text"]))
+        ctx.traces += 1
+        ctx.tag("parse_kind_" + it.get("kind", "replay"), "parse_" + ("ok" if "ok" in m else "err_" + m["err"]))
+        if m.get("err") == "int" and o.get("err") == "int":
+            o, m = {"err": "int"}, {"err": "int"}       # the token quoted in int()'s message is not behaviour
+        if o != m:
+            ctx.mismatch("c20.read_struct_file", "read_struct_file: impl %s model %s" % (str(o)[:300], str(m)[:300]),
+                         {"parse": it})
+        ctx.case({"parse": it}, "ok" in m and any(len(s[3]) > 0 for s in m["ok"]))
+        out.append((it, m, o))
+    return out
+
+
+def boot_case_of_text(rng, table, j):
+    opts = gen_opts(rng, table, False) if rng.random() < 0.6 else []
+    t = rng.choice([0, 1443571200, rng.randrange(2 ** 32)])
+    return {"store": [], "store_kinds": [], "calls": [
+        {"host": "board%d" % (j % 4), "port": None, "image": {"kind": "rand", "len": rng.choice([512, 1024, 2048]), "seed": j},
+         "table": table, "sv": None, "kwargs": opts, "t1": t, "t2": t + rng.choice([0, 1]), "via": "function",
+         "after": []}]}
+
+
+def pack_stream(ctx, n):
+    """struct.pack(b"<" + pack_chars, v) for every pack string the parser can produce against packValueFull"""
+    import struct as _struct
+    rng = ctx.rng
+    reqs, cases = [], []
+    for _ in range(n):
+        ch = rng.choice("bBHIs")
+        cnt = rng.choice(["", "", "", "1", "01", "001", "0", "2", "16", "00"])
+        lo, hi = RANGE.get(ch, (0, 255))
+        v = rng.choice([0, 1, lo, hi, lo - 1, hi + 1, rng.randint(lo, hi), -1, 2 ** 32, rng.choice(BIG)])
+        pk = (cnt + ch).encode()
+        cases.append((pk, v))
+        reqs.append({"suite": "c20parse", "op": "packv", "pack": pk.hex(), "v": v})
+    for (pk, v), m in zip(cases, ctx.lean(reqs)):
+        try:
+            o = {"ok": _struct.pack(b"<" + pk, v).hex()}
+        except _struct.error:
+            o = {"err": "struct.error"}
+        ctx.tag("packv_" + ("ok" if "ok" in o else "err"))
+        if o != m:
+            ctx.mismatch("c20.struct_pack_chars", "struct.pack(%r, %d): python %s model %s" % (pk, v, o, m),
+                         {"packv": [pk.hex(), v]})
+
+
+def parse_stream(ctx, n_valid, n_bad, n_boot):
+    """returns the boot cases made from the valid texts (judged with the other histories)"""
+    rng = ctx.rng
+    items = []
+    for _ in range(n_valid):
+        bootable = rng.random() < 0.7
+        items.append({"text": gen_valid_text(rng, bootable).hex(), "kind": "valid_bootable" if bootable else "valid_any"})
+    for _ in range(n_bad):
+        kind, text = gen_malformed_text(rng)
+        items.append({"text": text.hex(), "kind": "bad_" + kind})
+    from harness import common
+    items.append({"text": open(os.path.join(common.REPO, "rig/boot/sark.struct"), "rb").read().hex(), "kind": "sark"})
+    boots, tables = [], []
+    for j, (it, m, o) in enumerate(parse_eval(ctx, items)):
+        if "ok" in m:
+            tables.append(m["ok"])
+            table = table_of_parse(m["ok"], bytes.fromhex(it["text"]))
+            if table is not None and len(boots) < n_boot and (it["kind"] == "valid_bootable" or rng.random() < 0.3):
+                boots.append(boot_case_of_text(rng, table, j))
+                ctx.tag("parse_text_booted")
+    # the round trip of theorem parse_print on the implementation: for a table the Lean check tableWFB accepts,
+    # read_struct_file(printStructs table) must be the table (tables = what the texts above parsed to, some with
+    # sizes / bases / offsets / defaults replaced by other integers incl. negative ones)
+    for t in tables:
+        if rng.random() < 0.3:
+            for s_ in t:
+                if rng.random() < 0.5:
+                    s_[rng.choice([1, 2])] = rng.choice([-1, 0, -2 ** 31, 2 ** 64, 7])
+                for f in s_[3]:
+                    if rng.random() < 0.3:
+                        f[rng.choice([2, 4])] = rng.choice([-1, -128, 2 ** 40, 0, 10, 16])
+    pr = ctx.lean([{"suite": "c20parse", "op": "print", "structs": t} for t in tables])
+    for t, r in zip(tables, pr):
+        ctx.tag("print_wf" if r["wf"] else "print_not_wf")
+        if not r["wf"]:
+            continue
+        o = parse_impl(bytes.fromhex(r["text"]))
+        ctx.traces += 1
+        if o != {"ok": t}:
+            ctx.mismatch("c20.print_roundtrip", "read_struct_file(printStructs T) is not T: %s" % str(o)[:300],
+                         {"parse": {"text": r["text"], "kind": "printed"}})
+    return boots
+
+
 def load_corpus():
     from harness import common
     import json
@@ -1736,6 +2156,9 @@ def run(ctx):
                     cases.append(h)
     for _ in range(n):
         cases.append(gen_history(rng))
+    m = 4 if ctx.extended else 1
+    cases += parse_stream(ctx, ctx.scale(220, 3000) * m, ctx.scale(220, 3000) * m, ctx.scale(70, 1200) * m)
+    pack_stream(ctx, ctx.scale(300, 5000))
     for _ in range(ctx.scale(30, 300) * (4 if ctx.extended else 1)):
         cases += gen_twins(rng)
     for _ in range(ctx.scale(40, 600) * (4 if ctx.extended else 1)):
@@ -1757,7 +2180,15 @@ def replay(ctx, payload):
     if "packet" in case:
         packet_eval(ctx, [case["packet"]])
         return
+    if "parse" in case:
+        parse_eval(ctx, [case["parse"]])
+        return
+    if "packv" in case:
+        return
     if "calls" not in case:
         return
     report(ctx, [case], evaluate(ctx, [case]), do_shrink=False)
+THEOREMS += ["perl_packs_documented", "sark_parsed", "sark_table_embeds", "parsedSv_eq", "boot_meets_spec_parsed",
+             "parse_print", "parse_print_decided", "sark_table_wf", "sark_print_roundtrip", "packValueFull_plain",
+             "field_line_accepted", "field_line_raises", "line_syntax_error"]   # Props/C20Parse.lean
 THEOREMS += ['gen_boot_packet', 'header_be', 'bp_loop']   # translator tie: generated function bodies = model (Props/C20Gen.lean)
